@@ -111,9 +111,28 @@ package netconf
 //@   at call Sleep#* assert #after-an-echo-only-the-part-behind-the-first-delimiter-is-kept reMatch(d.Channel.PromptPattern, bHead ++ rb) && contains(bHead ++ rb, "</rpc>") ==> b == reSplit(d.Channel.PromptPattern, bHead ++ rb, 2)[1]
 
 // ---- C08 / C09: Open starts the reader only after the version is settled, with the delimiter of that version ----------------
+//@ func (*Driver).getServerCapabilities [C05]
+//@   requires RI(d.Channel.Q) && d.Channel.PromptSearchDepth >= 0
+//@   ensures RI(d.Channel.Q)
+//@   modifies rd, d.Channel.Q.queue, d.Channel.Q.depth, chan(d.Channel.Q.depthChan), quiet, alloc()
+//@   chaninv cr v => v != nil && RI(d.Channel.Q)
+//@   at call! WithTimeout#1 assert #the-hello-read-is-bounded-by-the-connection-wide-timeout arg1 == (d.Channel.TimeoutOps == -1 ? d.Channel.TimeoutOps : (d.Channel.TimeoutOps == 0 ? 86400 * 1000000000 : d.Channel.TimeoutOps))
+//@   ensures #nil-payload-on-error result.1 != nil ==> len(result.0) == 0
+//@   at return assert #timeout-class result.1 != nil && r != nil && isErr(r.err, context.DeadlineExceeded) ==> isErr(result.1, util.ErrTimeoutError)
+//@ chanmode (*Driver).getServerCapabilities$1:cr count
+//@ func (*Driver).getServerCapabilities$1 [C05]
+//@   maintains RI(d.Channel.Q)
+//@   requires d.Channel.PromptSearchDepth >= 0 && cr != nil && !closed(cr) && cr != d.Channel.Q.depthChan
+//@   chaninv cr v => v != nil && RI(d.Channel.Q)
+//@   modifies rd, d.Channel.Q.queue, d.Channel.Q.depth, chan(d.Channel.Q.depthChan), chan(cr), quiet, alloc()
+// (not claimed: "at most one result" - when the hello read fails with an error other than the deadline the goroutine sends
+// the error and then, not having returned, a second result nobody receives: it blocks forever. A goroutine leak on a
+// failed open, outside the twenty statements; recorded as an observation in DESIGN.md I.6)
+// the hello is parsed with regular expressions whose sub-matches are [][][]byte - deeper than the sequence encoding goes;
+// the body is not verified
 //@ func (*Driver).processServerCapabilities
 //@   noverify
-//@   requires RI(d.Channel.Q)
+//@   requires RI(d.Channel.Q) && d.Channel.PromptSearchDepth >= 0
 //@   ensures RI(d.Channel.Q)
 //@   modifies d.serverCapabilities, d.sessionID, rd, d.Channel.Q.queue, d.Channel.Q.depth, chan(d.Channel.Q.depthChan), quiet, alloc()
 //@ func (*Driver).Open [C08 C09]
